@@ -24,7 +24,10 @@ Mk(w, i, d, t, th, dt, tg, cl, da) ==
                !.denyallow = IF da THEN {<<Str("other"), Str("test")>>} ELSE {}]
 PoolSet == { Mk(w, i, d, t, th, dt, tg, cl, da) : w \in BOOLEAN, i \in BOOLEAN, d \in DomF, t \in TypF, th \in ThrF,
                                                  dt \in BOOLEAN, tg \in BOOLEAN, cl \in BOOLEAN, da \in BOOLEAN }
-Pool == SetToSeq(PoolSet)
+\* ... and the deprecated blocking-only modifiers, which the comparison must treat like any other modifier
+MiscSet == { [Mk(FALSE, i, d, 0, "none", FALSE, tg, FALSE, FALSE) EXCEPT !.misc = {m}] :
+                 i \in BOOLEAN, d \in DomF, tg \in BOOLEAN, m \in {"empty", "mp4", "popup"} }
+Pool == SetToSeq(PoolSet \cup MiscSet)
 N == Len(Pool)
 
 Rk == [i \in 1..N |-> Rank(Pool[i])]
